@@ -113,6 +113,29 @@ def xnode_cases():
     return cases
 
 
+def expired_cases():
+    """objects whose ExpiresAt lies in the past (the cleanup task has not run): every command that names an object, and the list
+    commands, x every sender class — an expired mapping / domain is still its owner's"""
+    world = copy.deepcopy(WORLD)
+    for i in (0, 1, 3):
+        world["mappings"][i]["exp"] = True
+    for d in world["domains"]:
+        d["exp"] = True
+    cases = []
+    for cmd, vs in ((MAP_GET, [{"obj": o} for o in (0, 1, 3)]), (MAP_DEL, [{"obj": o} for o in (0, 1, 3)]),
+                    (TRAFFIC, [{"obj": 0, "sent": 3, "recv": 4}, {"obj": 1, "sent": 3, "recv": 4}]), (SOCKS, [{"obj": 0}, {"obj": 1}]),
+                    (DOM_DEL, [{"obj": 0}, {"obj": 1}]), (MAP_LIST, [{"dir": 0}, {"dir": 2}]), (DOM_LIST, [{}]), (CONFIG_GET, [{}]),
+                    (DNS_QUERY, [{"tgt": 0}, {"tgt": 2}])):
+        for var in vs:
+            steps = [step(conn, who, cmd, claim=claim, **var) for conn, who in CONNS for claim in (0, 2 if who != 2 else 1)]
+            cases.append(dict(copy.deepcopy(world), mode="case", aux=True, steps=steps, tag="expired"))
+    return cases
+
+
+RACE_CASE = {"mode": "race", "tag": "race", "nclients": 4, "online": [True] * 4, "per_client": 40, "iters": 40, "aux": False,
+             "codes": [{"t": 1, "act": 0}, {"t": 2, "act": 0}, {"t": 3, "act": 0}], "domains": [{"c": 1}, {"c": 2}, {"c": 3}, {"c": 4}]}
+
+
 def unhandled_cases(rng, handled, n):
     pool = [b for b in range(256) if b not in handled and b != NOTIFY]
     steps = []
@@ -568,7 +591,7 @@ def honest_twin(case):
 def twin_wanted(c):
     if any(s.get("fault", 0) > 0 for s in c["steps"]):
         return False      # which call is the k-th depends on map iteration order inside the services: two runs need not fail at the same place
-    return (c.get("tag") in ("sweep", "random", "corpus", "xnode") or c.get("tag", "").startswith("authz") or c.get("tag", "").startswith("history")) and any(s["claim"] for s in c["steps"])
+    return (c.get("tag") in ("sweep", "random", "corpus", "xnode", "expired") or c.get("tag", "").startswith("authz") or c.get("tag", "").startswith("history")) and any(s["claim"] for s in c["steps"])
 
 
 def load_corpus():
@@ -625,8 +648,11 @@ def run(ctx, only_cases=None):
         cases += history_cases(handled, [NOTIFY])
         cases += xnode_cases()
         cases += authz_change_cases()
+        cases += expired_cases()
         cases += answer_cases()
         cases += random_cases(ctx.rng, 2500 if thorough else 250, [h for h in HANDLED])
+    racecs = [c for c in cases if c.get("mode") == "race"] + ([RACE_CASE] if only_cases is None else [])
+    cases = [c for c in cases if c.get("mode") != "race"]
     pend = [c for c in cases if c.get("mode") == "pending"] + (pending_cases() if only_cases is None else [])
     cases = [c for c in cases if c.get("mode") != "pending"]
     if only_cases is None:
@@ -685,6 +711,17 @@ def run(ctx, only_cases=None):
                 reported.add(o["prop_key"])
                 ctx.violation(o["prop_key"], "real DNS pending table: %s" % o["prop_msg"],
                               {"case": c, "forwarded": o["forwarded"], "got": o["got"]})
+    # racing read commands of several clients: an answer names only the sender's own objects
+    if racecs:
+        _t0 = _t.time()
+        for c, o in zip(racecs, vlib.run_harness(binary, racecs, timeout=300)):
+            if o.get("setup_err"):
+                raise vlib.Broken("C11 harness race setup failed", o["setup_err"])
+            ctx.coverage["racing_read_answers_checked"] = o["answers"]
+            if not o["prop_ok"]:
+                nfail += 1
+                ctx.violation(o["prop_key"], "real command stack: %s" % o["prop_msg"], {"case": c, "foreign_answers": o["foreign"], "answers": o["answers"]})
+        phase["race_s"] = round(_t.time() - _t0, 1)
     # overlapping commands: a still-running handler keeps seeing its own command's context
     for c, o in zip(ovl, oouts):
         if not o["prop_ok"]:
